@@ -1,5 +1,86 @@
-import PkVerif.Drv.Common
-/-! `pkmodel-c02`: stub (property not built yet). -/
+import PkVerif.Drv.C01
+import PkVerif.Model.Receive
+/-! `pkmodel-c02`: verified receive, PUT and multipart decisions in front of a C01 storage model.
+
+    cfg …                                                   (as in c01)
+    recv <key> <true|none> <sup> <eof|eof+|err> <frag>…      -> accepted n hub=1 | corrupt hub=0 | …
+    put  <key> <true|none> <sup> <parses> <cl|none> <fin> <frag>…   -> 204 | 400 | 500
+    multipart <key> <true|none> <sup> <parses> <frag> [| …]   -> received k:n …
+    fetch / stat / enum                                      (as in c01)
+`true` is the content the ref denotes (hex) – "bytes hash to the ref" is equality with it; `none`
+means no offered bytes can match (the digest is not the hash of anything in play).
+-/
 namespace Pk.Drv.C02
-def machine : Machine := { σ := Unit, init := (), step := fun s _ => (s, "bad-op") }
+open Pk Pk.RefMap Pk.Stores Pk.Recv
+
+def matcher (t : String) : Option (Bytes → Bool) :=
+  if t == "none" then some (fun _ => false)
+  else (hexArg t).map (fun tb => fun b => b == tb)
+
+def finOf (s : String) : Option End :=
+  if s == "eof" || s == "eof+" then some .eof else if s == "err" then some .err else none
+
+def boolOf (s : String) : Option Bool :=
+  if s == "1" then some true else if s == "0" then some false else none
+
+def showRes : Res → String
+  | .accepted d => s!"accepted {d.length}"
+  | .corrupt => "corrupt"
+  | .tooBig => "toobig"
+  | .srcErr => "err"
+  | .badHash => "badhash"
+
+/-- split a word list at `|` -/
+def splitBar (ws : List String) : List (List String) :=
+  ws.foldr (fun w acc => if w == "|" then [] :: acc else
+    match acc with
+    | [] => [[w]]
+    | g :: gs => (w :: g) :: gs) [[]]
+
+def parsePart : List String → Option Part
+  | k :: t :: sup :: par :: frags =>
+    match hexArg k, matcher t, boolOf sup, boolOf par, frags.mapM hexArg with
+    | some k, some m, some sup, some par, some fs => some ⟨k, par, sup, m, ⟨fs, .eof⟩⟩
+    | _, _, _, _, _ => none
+  | _ => none
+
+def step (st : C01.St) (ws : List String) : C01.St × String :=
+  match ws with
+  | "recv" :: k :: t :: sup :: fin :: frags =>
+    (match st, hexArg k, matcher t, boolOf sup, finOf fin, frags.mapM hexArg with
+     | some ⟨I, s⟩, some k, some m, some sup, some fin, some fs =>
+       let e := receiveInto I Gen.maxBlobSize sup m s k ⟨fs, fin⟩
+       (some ⟨I, e.state⟩, s!"{showRes e.res} hub={e.hub.length}")
+     | _, _, _, _, _, _ => (st, "bad-op"))
+  | "put" :: k :: t :: sup :: par :: cl :: fin :: frags =>
+    (match st, hexArg k, matcher t, boolOf sup, boolOf par, finOf fin, frags.mapM hexArg with
+     | some ⟨I, s⟩, some k, some m, some sup, some par, some fin, some fs =>
+       let clv : Option (Option Nat) := if cl == "none" then some none else cl.toNat?.map some
+       (match clv with
+        | none => (st, "bad-op")
+        | some clv =>
+          let (code, r) := putDecision Gen.maxBlobSize true clv par sup m ⟨fs, fin⟩
+          let codeS := match code with | .noContent204 => "204" | .badRequest400 => "400" | .serverError500 => "500"
+          match r with
+          | .accepted d =>
+            (match I.step s (.recv k d) with
+             | (s', .sized _) => (some ⟨I, s'⟩, codeS)
+             | (s', _) => (some ⟨I, s'⟩, "500"))
+          | _ => (st, codeS))
+     | _, _, _, _, _, _, _ => (st, "bad-op"))
+  | "multipart" :: rest =>
+    (match st, (splitBar rest).mapM parsePart with
+     | some ⟨I, s⟩, some parts =>
+       let recvd := multipart Gen.maxBlobSize parts
+       -- store what was accepted, in order
+       let s' := recvd.foldl (fun s e =>
+         match parts.find? (fun p => p.key == e.1 && p.parses) with
+         | some p => (I.step s (.recv e.1 p.src.total)).1
+         | none => s) s
+       (some ⟨I, s'⟩, ("received " ++ C01.showPairs recvd).trimRight)
+     | _, _ => (st, "bad-op"))
+  | _ => C01.step st ws
+
+def machine : Machine := { σ := C01.St, init := none, step := step }
+
 end Pk.Drv.C02
